@@ -12,7 +12,7 @@ local macro "lst" : tactic => `(tactic| ((try simp only [List.append_assoc, List
 
 /-- the default ops `dOut` against the default entry of the source cases -/
 def DefOK (cx : Cx) (m j : Nat) (dIn dOut : List LItem) : Option Nat → Prop
-  | some d => ∃ o X, dOut = [.ljump ⟨o, Gen.op_jump, []⟩ (some X)] ∧ R2 cx m j (target cx.rs X) d
+  | some d => ∃ o X, dOut = [.ljump ⟨o, Gen.op_jump, []⟩ (some X)] ∧ R2 cx m j (target cx.rs (cx.cp.σ X)) d
   | none => dOut = dIn
 
 /-- `Hn`: the header jumps, `Cn`: the blocks collected for the source cases `SC`; `dIn` / `dOut`: the default ops before / after.
@@ -20,14 +20,14 @@ def DefOK (cx : Cx) (m j : Nat) (dIn dOut : List LItem) : Option Nat → Prop
 that was folded into its header jumps is only a label: it must not be fallen into). -/
 structure SwSem (cx : Cx) (fuel : Nat) (env : Src.Env) (endL : Nat) (L : List (Nat × Nat)) (Cs : List Nat) (sE : St) (FI : Prop)
     (SC : Src.Cases) (Hn Cn dIn dOut : List LItem) : Prop where
-  grow : ∀ k nt b, Grow cx.Z b (Src.trCases fuel [] (brkEnv env k) SC k nt b).1
-  corr : ∀ k nt r pH pC, Placed cx.rs r pH Hn → Placed cx.rs r pC Cn → ∀ b,
-    AgreeOn cx.N cx.Z b (Src.trCases fuel [] (brkEnv env k) SC k nt b).1 → ∀ m j (sC : St), sC.loops = L → sC.cases = endL :: Cs →
+  grow : ∀ k nt b, Grow cx.Z b (Src.trCases fuel cx.sm (brkEnv env k) SC k nt b).1
+  corr : ∀ k nt r pH pC, Placed cx.cp cx.rs r pH Hn → Placed cx.cp cx.rs r pC Cn → ∀ b,
+    AgreeOn cx.N cx.Z b (Src.trCases fuel cx.sm (brkEnv env k) SC k nt b).1 → ∀ m j (sC : St), sC.loops = L → sC.cases = endL :: Cs →
     ExitsOK cx m j sC (brkEnv env k) → NamedIn cx sE → R2 cx m j ⟨r, pC + Cn.length⟩ k →
-    (R2 cx m j ⟨r, pH + Hn.length⟩ nt → R2 cx m j ⟨r, pH⟩ (Src.trCases fuel [] (brkEnv env k) SC k nt b).2.2.1) ∧
-    (FI → R2 cx m j ⟨r, pC⟩ (Src.trCases fuel [] (brkEnv env k) SC k nt b).2.1) ∧
-    DefOK cx m j dIn dOut (Src.trCases fuel [] (brkEnv env k) SC k nt b).2.2.2 ∧
-    LabExport cx env m j b (Src.trCases fuel [] (brkEnv env k) SC k nt b).1
+    (R2 cx m j ⟨r, pH + Hn.length⟩ nt → R2 cx m j ⟨r, pH⟩ (Src.trCases fuel cx.sm (brkEnv env k) SC k nt b).2.2.1) ∧
+    (FI → R2 cx m j ⟨r, pC⟩ (Src.trCases fuel cx.sm (brkEnv env k) SC k nt b).2.1) ∧
+    DefOK cx m j dIn dOut (Src.trCases fuel cx.sm (brkEnv env k) SC k nt b).2.2.2 ∧
+    LabExport cx env m j b (Src.trCases fuel cx.sm (brkEnv env k) SC k nt b).1
 
 theorem sw_nil (cx : Cx) (fuel : Nat) (env : Src.Env) (endL : Nat) (L : List (Nat × Nat)) (Cs : List Nat) (sE : St) (FI : Prop) (d : List LItem) :
     SwSem cx fuel env endL L Cs sE FI .nil [] [] d d := by
@@ -40,54 +40,54 @@ theorem sw_nil (cx : Cx) (fuel : Nat) (env : Src.Env) (endL : Nat) (L : List (Na
 theorem sw_case (cx : Cx) (fuel : Nat) (env : Src.Env) (he : EnvOK cx env) (endL : Nat) (L : List (Nat × Nat)) (Cs : List Nat)
     (w : List (Option BP)) (hs dIn d1 : List LItem) (sL eB : Nat) (ops : List LItem) (sa sb : St) (body : Stmts) (n : Nat) (bp : BP)
     (htest : isTest bp.name = true)
-    (hP : ∀ env', EnvOK cx env' → PieceOK cx ops sa sb (fun k b => Src.trStmts fuel [] env' (toSrcStmts body) k b) env')
+    (hP : ∀ env', EnvOK cx env' → PieceOK cx ops sa sb (fun k b => Src.trStmts fuel cx.sm env' (toSrcStmts body) k b) env')
     (hsaL : sa.loops = L) (hsaC : sa.cases = endL :: Cs) (hW : WaitSem cx fuel sL w hs dIn d1) {sE : St} (hle : NamedLe sb sE)
     {SCr : Src.Cases} {Hr Cr dOut : List LItem} (hR : SwSem cx fuel env endL L Cs sE (falls ops = true) SCr Hr Cr d1 dOut)
-    (hnd : hasNone w = true → ∀ k nt b, (Src.trCases fuel [] (brkEnv env k) SCr k nt b).2.2.2 = none) (FI : Prop) :
+    (hnd : hasNone w = true → ∀ k nt b, (Src.trCases fuel cx.sm (brkEnv env k) SCr k nt b).2.2.2 = none) (FI : Prop) :
     SwSem cx fuel env endL L Cs sE FI (wSrc w (.cons false ⟨bp.name, convParams bp.params⟩ (toSrcStmts body) SCr))
       (hs ++ [LItem.ljump ⟨n, bp.name, bp.params⟩ (some sL)] ++ Hr)
       ([LItem.label sL false] ++ ops ++ [LItem.label eB false] ++ Cr) dIn dOut := by
-  have hsub : ∀ k, (brkEnv env k).subst = [] := fun k => he.1
+  have hsub : ∀ k, EvOK cx (brkEnv env k).subst := fun k => he.ev
   refine ⟨fun k nt b => ?_, ?_⟩
   · obtain ⟨gW, _, _, _⟩ := hW.sem (brkEnv env k) (hsub k) k nt (.cons false ⟨bp.name, convParams bp.params⟩ (toSrcStmts body) SCr) b
-    rw [trCases_case fuel (brkEnv env k) (hsub k) _ _ SCr k nt b rfl rfl] at gW
+    rw [trCases_case fuel cx.sm (brkEnv env k) _ _ SCr k nt b rfl rfl] at gW
     exact (((hR.grow k nt b).trans ((hP _ (plainEnv_brkEnv he k)).grow _ _)).trans (Grow.push _ _)).trans gW.grow
   intro k nt r pH pC hpH hpC b hag m j sC hl hc hex hin hend
   have hPe := hP _ (plainEnv_brkEnv he k)
   obtain ⟨gW, ebW, edW, cW⟩ := hW.sem (brkEnv env k) (hsub k) k nt (.cons false ⟨bp.name, convParams bp.params⟩ (toSrcStmts body) SCr) b
   have gR := hR.grow k nt b
-  have cR := fun r' pH' pC' (h1 : Placed cx.rs r' pH' Hr) (h2 : Placed cx.rs r' pC' Cr) => hR.corr k nt r' pH' pC' h1 h2 b
-  generalize hT0 : Src.trCases fuel [] (brkEnv env k) SCr k nt b = T0 at gR cR
+  have cR := fun r' pH' pC' (h1 : Placed cx.cp cx.rs r' pH' Hr) (h2 : Placed cx.cp cx.rs r' pC' Cr) => hR.corr k nt r' pH' pC' h1 h2 b
+  generalize hT0 : Src.trCases fuel cx.sm (brkEnv env k) SCr k nt b = T0 at gR cR
   have gB := hPe.grow T0.2.1 T0.1
   try simp only at gB
-  generalize hBd : Src.trStmts fuel [] (brkEnv env k) (toSrcStmts body) T0.2.1 T0.1 = Bd at gB
-  have htr := trCases_case fuel (brkEnv env k) (hsub k) ⟨bp.name, convParams bp.params⟩ (toSrcStmts body) SCr k nt b hT0 hBd
+  generalize hBd : Src.trStmts fuel cx.sm (brkEnv env k) (toSrcStmts body) T0.2.1 T0.1 = Bd at gB
+  have htr := trCases_case fuel cx.sm (brkEnv env k) ⟨bp.name, convParams bp.params⟩ (toSrcStmts body) SCr k nt b hT0 hBd
   rw [htr] at gW ebW edW cW
   simp only at gW ebW edW cW
-  generalize hTW : Src.trCases fuel [] (brkEnv env k) (wSrc w (.cons false ⟨bp.name, convParams bp.params⟩ (toSrcStmts body) SCr)) k nt b = TW
+  generalize hTW : Src.trCases fuel cx.sm (brkEnv env k) (wSrc w (.cons false ⟨bp.name, convParams bp.params⟩ (toSrcStmts body) SCr)) k nt b = TW
     at hag gW ebW edW cW ⊢
-  obtain ⟨a1, a2⟩ := tbl_push Bd.1 (.test ⟨bp.name, convParams bp.params⟩ Bd.2 T0.2.2.1)
+  obtain ⟨a1, a2⟩ := tbl_push Bd.1 (.test (Src.substEv (brkEnv env k).subst ⟨bp.name, convParams bp.params⟩) Bd.2 T0.2.2.1)
   -- the node table
   have agR : AgreeOn cx.N cx.Z b T0.1 := hag.sub_grow (Grow.refl b) ((gB.trans (Grow.push _ _)).trans gW.grow)
   have agB : AgreeOn cx.N cx.Z T0.1 Bd.1 := hag.sub_grow gR ((Grow.push _ _).trans gW.grow)
-  have agW : AgreeOn cx.N cx.Z (Bd.1.push (.test ⟨bp.name, convParams bp.params⟩ Bd.2 T0.2.2.1)).1 TW.1 :=
+  have agW : AgreeOn cx.N cx.Z (Bd.1.push (.test (Src.substEv (brkEnv env k).subst ⟨bp.name, convParams bp.params⟩) Bd.2 T0.2.2.1)).1 TW.1 :=
     hag.sub_grow ((gR.trans gB).trans (Grow.push _ _)) (Grow.refl _)
-  have hN : cx.N[(tbl Bd.1).length]? = some (.test ⟨bp.name, convParams bp.params⟩ Bd.2 T0.2.2.1) := by
+  have hN : cx.N[(tbl Bd.1).length]? = some (.test (Src.substEv (brkEnv env k).subst ⟨bp.name, convParams bp.params⟩) Bd.2 T0.2.2.1) := by
     have hl1 := gW.len
     rw [a1] at hl1
     simp only [List.length_append, List.length_cons, List.length_nil] at hl1
     rw [hag.2 _ (gR.trans gB).len (by omega), gW.same (by rw [a1]; simp), a1]
     simp
   -- positions
-  have hpHs : Placed cx.rs r pH hs := hpH.left.left
-  have hitT : itemAt cx.rs ⟨r, pH + hs.length⟩ = some (.ljump ⟨n, bp.name, bp.params⟩ (some sL)) :=
+  have hpHs : Placed cx.cp cx.rs r pH hs := hpH.left.left
+  have hitT : ItemC cx.cp cx.rs ⟨r, pH + hs.length⟩ (.ljump ⟨n, bp.name, bp.params⟩ (some sL)) :=
     hpH.here' hs _ _ (by lst) rfl
-  have hpHr : Placed cx.rs r (pH + hs.length + 1) Hr :=
+  have hpHr : Placed cx.cp cx.rs r (pH + hs.length + 1) Hr :=
     hpH.mid' (hs ++ [LItem.ljump ⟨n, bp.name, bp.params⟩ (some sL)]) Hr [] (by simp) (by len_omega)
-  have hpBlk : Placed cx.rs r pC ([LItem.label sL false] ++ ops ++ [LItem.label eB false] ++ Cr) := hpC
-  have hpCr : Placed cx.rs r (pC + ops.length + 2) Cr :=
+  have hpBlk : Placed cx.cp cx.rs r pC ([LItem.label sL false] ++ ops ++ [LItem.label eB false] ++ Cr) := hpC
+  have hpCr : Placed cx.cp cx.rs r (pC + ops.length + 2) Cr :=
     hpC.mid' ([LItem.label sL false] ++ ops ++ [LItem.label eB false]) Cr [] (by simp) (by len_omega)
-  have htgt : target cx.rs sL = ⟨r, pC⟩ := hpC.lbl' cx.hlab [] _ sL false (by lst) rfl
+  have htgt : target cx.rs (cx.cp.σ sL) = ⟨r, pC⟩ := hpC.lbl' cx.hlab [] _ sL false (by lst) rfl
   have hendR : R2 cx m j ⟨r, pC + ops.length + 2 + Cr.length⟩ k := by
     have e : pC + ops.length + 2 + Cr.length = pC + ([LItem.label sL false] ++ ops ++ [LItem.label eB false] ++ Cr).length := by len_omega
     rw [e]; exact hend
@@ -99,6 +99,7 @@ theorem sw_case (cx : Cx) (fuel : Nat) (env : Src.Env) (he : EnvOK cx env) (endL
     rw [hBd] at this; exact this
   have hbody := hbody2.1
   have hstep := lab_test hitT (isTest_not_jump _ htest) htest
+  simp only [hsub k bp.name bp.params] at hstep
   refine ⟨fun hnt => ?_, fun _ => by rw [ebW]; exact hbody, ?_, LabExport.comp gR.len xR
     (LabExport.comp gB.len hbody2.2 (LabExport.same (fun i hi => ((Pushes.push _ _).trans gW).same hi)))⟩
   · have hnt' : R2 cx m j ⟨r, pH + hs.length + 1 + Hr.length⟩ nt := by
@@ -126,42 +127,42 @@ theorem sw_case (cx : Cx) (fuel : Nat) (env : Src.Env) (he : EnvOK cx env) (endL
 /-- the default with a block: the header jumps of the handlers waiting for it, the jump of the default ops, its block -/
 theorem sw_default (cx : Cx) (fuel : Nat) (env : Src.Env) (he : EnvOK cx env) (endL : Nat) (L : List (Nat × Nat)) (Cs : List Nat)
     (w : List (Option BP)) (hs dIn d1 : List LItem) (sL eB : Nat) (ops : List LItem) (sa sb : St) (body : Stmts) (n0 : Nat)
-    (hP : ∀ env', EnvOK cx env' → PieceOK cx ops sa sb (fun k b => Src.trStmts fuel [] env' (toSrcStmts body) k b) env')
+    (hP : ∀ env', EnvOK cx env' → PieceOK cx ops sa sb (fun k b => Src.trStmts fuel cx.sm env' (toSrcStmts body) k b) env')
     (hsaL : sa.loops = L) (hsaC : sa.cases = endL :: Cs)
     (hW : WaitSem cx fuel sL w hs [LItem.ljump ⟨n0, Gen.op_jump, []⟩ (some sL)] d1) {sE : St} (hle : NamedLe sb sE)
     {SCr : Src.Cases} {Hr Cr dOut : List LItem} (hR : SwSem cx fuel env endL L Cs sE (falls ops = true) SCr Hr Cr d1 dOut)
-    (hnd : ∀ k nt b, (Src.trCases fuel [] (brkEnv env k) SCr k nt b).2.2.2 = none) (FI : Prop) :
+    (hnd : ∀ k nt b, (Src.trCases fuel cx.sm (brkEnv env k) SCr k nt b).2.2.2 = none) (FI : Prop) :
     SwSem cx fuel env endL L Cs sE FI (wSrc w (.cons true ⟨"", []⟩ (toSrcStmts body) SCr))
       (hs ++ Hr) ([LItem.label sL false] ++ ops ++ [LItem.label eB false] ++ Cr) dIn dOut := by
-  have hsub : ∀ k, (brkEnv env k).subst = [] := fun k => he.1
+  have hsub : ∀ k, EvOK cx (brkEnv env k).subst := fun k => he.ev
   refine ⟨fun k nt b => ?_, ?_⟩
   · obtain ⟨gW, _, _, _⟩ := hW.sem (brkEnv env k) (hsub k) k nt (.cons true ⟨"", []⟩ (toSrcStmts body) SCr) b
-    rw [trCases_default fuel (brkEnv env k) _ _ SCr k nt b rfl rfl] at gW
+    rw [trCases_default fuel cx.sm (brkEnv env k) _ _ SCr k nt b rfl rfl] at gW
     exact ((hR.grow k nt b).trans ((hP _ (plainEnv_brkEnv he k)).grow _ _)).trans gW.grow
   intro k nt r pH pC hpH hpC b hag m j sC hl hc hex hin hend
   have hPe := hP _ (plainEnv_brkEnv he k)
   obtain ⟨gW, ebW, edW, cW⟩ := hW.sem (brkEnv env k) (hsub k) k nt (.cons true ⟨"", []⟩ (toSrcStmts body) SCr) b
   have gR := hR.grow k nt b
-  have cR := fun r' pH' pC' (h1 : Placed cx.rs r' pH' Hr) (h2 : Placed cx.rs r' pC' Cr) => hR.corr k nt r' pH' pC' h1 h2 b
+  have cR := fun r' pH' pC' (h1 : Placed cx.cp cx.rs r' pH' Hr) (h2 : Placed cx.cp cx.rs r' pC' Cr) => hR.corr k nt r' pH' pC' h1 h2 b
   have hndk := hnd k nt b
-  generalize hT0 : Src.trCases fuel [] (brkEnv env k) SCr k nt b = T0 at gR cR hndk
+  generalize hT0 : Src.trCases fuel cx.sm (brkEnv env k) SCr k nt b = T0 at gR cR hndk
   have gB := hPe.grow T0.2.1 T0.1
   try simp only at gB
-  generalize hBd : Src.trStmts fuel [] (brkEnv env k) (toSrcStmts body) T0.2.1 T0.1 = Bd at gB
-  have htr := trCases_default fuel (brkEnv env k) ⟨"", []⟩ (toSrcStmts body) SCr k nt b hT0 hBd
+  generalize hBd : Src.trStmts fuel cx.sm (brkEnv env k) (toSrcStmts body) T0.2.1 T0.1 = Bd at gB
+  have htr := trCases_default fuel cx.sm (brkEnv env k) ⟨"", []⟩ (toSrcStmts body) SCr k nt b hT0 hBd
   rw [htr] at gW ebW edW cW
   simp only at gW ebW edW cW
-  generalize hTW : Src.trCases fuel [] (brkEnv env k) (wSrc w (.cons true ⟨"", []⟩ (toSrcStmts body) SCr)) k nt b = TW
+  generalize hTW : Src.trCases fuel cx.sm (brkEnv env k) (wSrc w (.cons true ⟨"", []⟩ (toSrcStmts body) SCr)) k nt b = TW
     at hag gW ebW edW cW ⊢
   have agR : AgreeOn cx.N cx.Z b T0.1 := hag.sub_grow (Grow.refl b) (gB.trans gW.grow)
   have agB : AgreeOn cx.N cx.Z T0.1 Bd.1 := hag.sub_grow gR gW.grow
   have agW : AgreeOn cx.N cx.Z Bd.1 TW.1 := hag.sub_grow (gR.trans gB) (Grow.refl _)
-  have hpHs : Placed cx.rs r pH hs := hpH.left
-  have hpHr : Placed cx.rs r (pH + hs.length) Hr := hpH.right
-  have hpBlk : Placed cx.rs r pC ([LItem.label sL false] ++ ops ++ [LItem.label eB false] ++ Cr) := hpC
-  have hpCr : Placed cx.rs r (pC + ops.length + 2) Cr :=
+  have hpHs : Placed cx.cp cx.rs r pH hs := hpH.left
+  have hpHr : Placed cx.cp cx.rs r (pH + hs.length) Hr := hpH.right
+  have hpBlk : Placed cx.cp cx.rs r pC ([LItem.label sL false] ++ ops ++ [LItem.label eB false] ++ Cr) := hpC
+  have hpCr : Placed cx.cp cx.rs r (pC + ops.length + 2) Cr :=
     hpC.mid' ([LItem.label sL false] ++ ops ++ [LItem.label eB false]) Cr [] (by simp) (by len_omega)
-  have htgt : target cx.rs sL = ⟨r, pC⟩ := hpC.lbl' cx.hlab [] _ sL false (by lst) rfl
+  have htgt : target cx.rs (cx.cp.σ sL) = ⟨r, pC⟩ := hpC.lbl' cx.hlab [] _ sL false (by lst) rfl
   have hendR : R2 cx m j ⟨r, pC + ops.length + 2 + Cr.length⟩ k := by
     have e : pC + ops.length + 2 + Cr.length = pC + ([LItem.label sL false] ++ ops ++ [LItem.label eB false] ++ Cr).length := by len_omega
     rw [e]; exact hend
@@ -200,16 +201,16 @@ label, nothing falls into it -/
 theorem sw_fold (cx : Cx) (fuel : Nat) (env : Src.Env) (he : EnvOK cx env) (endL : Nat) (L : List (Nat × Nat)) (Cs : List Nat)
     (w : List (Option BP)) (hs dIn d1 : List LItem) (l eB : Nat) (ops : List LItem) (sa sb : St) (body : Stmts) (n : Nat) (bp : BP)
     (htest : isTest bp.name = true) (hlone : loneJump ops = some (some l))
-    (hP : ∀ env', EnvOK cx env' → PieceOK cx ops sa sb (fun k b => Src.trStmts fuel [] env' (toSrcStmts body) k b) env')
+    (hP : ∀ env', EnvOK cx env' → PieceOK cx ops sa sb (fun k b => Src.trStmts fuel cx.sm env' (toSrcStmts body) k b) env')
     (hsaL : sa.loops = L) (hsaC : sa.cases = endL :: Cs) (hW : WaitSem cx fuel l w hs dIn d1) {sE : St} (hle : NamedLe sb sE)
     {SCr : Src.Cases} {Hr Cr dOut : List LItem} (hR : SwSem cx fuel env endL L Cs sE False SCr Hr Cr d1 dOut)
-    (hnd : hasNone w = true → ∀ k nt b, (Src.trCases fuel [] (brkEnv env k) SCr k nt b).2.2.2 = none) :
+    (hnd : hasNone w = true → ∀ k nt b, (Src.trCases fuel cx.sm (brkEnv env k) SCr k nt b).2.2.2 = none) :
     SwSem cx fuel env endL L Cs sE False (wSrc w (.cons false ⟨bp.name, convParams bp.params⟩ (toSrcStmts body) SCr))
       (hs ++ [LItem.ljump ⟨n, bp.name, bp.params⟩ (some l)] ++ Hr) ([LItem.label eB false] ++ Cr) dIn dOut := by
-  have hsub : ∀ k, (brkEnv env k).subst = [] := fun k => he.1
+  have hsub : ∀ k, EvOK cx (brkEnv env k).subst := fun k => he.ev
   refine ⟨fun k nt b => ?_, ?_⟩
   · obtain ⟨gW, _, _, _⟩ := hW.sem (brkEnv env k) (hsub k) k nt (.cons false ⟨bp.name, convParams bp.params⟩ (toSrcStmts body) SCr) b
-    rw [trCases_case fuel (brkEnv env k) (hsub k) _ _ SCr k nt b rfl rfl] at gW
+    rw [trCases_case fuel cx.sm (brkEnv env k) _ _ SCr k nt b rfl rfl] at gW
     exact (((hR.grow k nt b).trans ((hP _ (plainEnv_brkEnv he k)).grow _ _)).trans (Grow.push _ _)).trans gW.grow
   intro k nt r pH pC hpH hpC b hag m j sC hl hc hex hin hend
   have hPe := hP _ (plainEnv_brkEnv he k)
@@ -217,35 +218,36 @@ theorem sw_fold (cx : Cx) (fuel : Nat) (env : Src.Env) (he : EnvOK cx env) (endL
   obtain ⟨nn, htrf, hRl⟩ := hPe.lone l hlone m j hexA (hin.le hle)
   obtain ⟨gW, ebW, edW, cW⟩ := hW.sem (brkEnv env k) (hsub k) k nt (.cons false ⟨bp.name, convParams bp.params⟩ (toSrcStmts body) SCr) b
   have gR := hR.grow k nt b
-  have cR := fun r' pH' pC' (h1 : Placed cx.rs r' pH' Hr) (h2 : Placed cx.rs r' pC' Cr) => hR.corr k nt r' pH' pC' h1 h2 b
-  generalize hT0 : Src.trCases fuel [] (brkEnv env k) SCr k nt b = T0 at gR cR
-  have hBd : Src.trStmts fuel [] (brkEnv env k) (toSrcStmts body) T0.2.1 T0.1 = (T0.1, nn) := htrf _ _
-  have htr := trCases_case fuel (brkEnv env k) (hsub k) ⟨bp.name, convParams bp.params⟩ (toSrcStmts body) SCr k nt b hT0 hBd
+  have cR := fun r' pH' pC' (h1 : Placed cx.cp cx.rs r' pH' Hr) (h2 : Placed cx.cp cx.rs r' pC' Cr) => hR.corr k nt r' pH' pC' h1 h2 b
+  generalize hT0 : Src.trCases fuel cx.sm (brkEnv env k) SCr k nt b = T0 at gR cR
+  have hBd : Src.trStmts fuel cx.sm (brkEnv env k) (toSrcStmts body) T0.2.1 T0.1 = (T0.1, nn) := htrf _ _
+  have htr := trCases_case fuel cx.sm (brkEnv env k) ⟨bp.name, convParams bp.params⟩ (toSrcStmts body) SCr k nt b hT0 hBd
   rw [htr] at gW ebW edW cW
   simp only at gW ebW edW cW
-  generalize hTW : Src.trCases fuel [] (brkEnv env k) (wSrc w (.cons false ⟨bp.name, convParams bp.params⟩ (toSrcStmts body) SCr)) k nt b = TW
+  generalize hTW : Src.trCases fuel cx.sm (brkEnv env k) (wSrc w (.cons false ⟨bp.name, convParams bp.params⟩ (toSrcStmts body) SCr)) k nt b = TW
     at hag gW ebW edW cW ⊢
-  obtain ⟨a1, a2⟩ := tbl_push T0.1 (.test ⟨bp.name, convParams bp.params⟩ nn T0.2.2.1)
+  obtain ⟨a1, a2⟩ := tbl_push T0.1 (.test (Src.substEv (brkEnv env k).subst ⟨bp.name, convParams bp.params⟩) nn T0.2.2.1)
   have agR : AgreeOn cx.N cx.Z b T0.1 := hag.sub_grow (Grow.refl b) ((Grow.push _ _).trans gW.grow)
-  have agW : AgreeOn cx.N cx.Z (T0.1.push (.test ⟨bp.name, convParams bp.params⟩ nn T0.2.2.1)).1 TW.1 :=
+  have agW : AgreeOn cx.N cx.Z (T0.1.push (.test (Src.substEv (brkEnv env k).subst ⟨bp.name, convParams bp.params⟩) nn T0.2.2.1)).1 TW.1 :=
     hag.sub_grow (gR.trans (Grow.push _ _)) (Grow.refl _)
-  have hN : cx.N[(tbl T0.1).length]? = some (.test ⟨bp.name, convParams bp.params⟩ nn T0.2.2.1) := by
+  have hN : cx.N[(tbl T0.1).length]? = some (.test (Src.substEv (brkEnv env k).subst ⟨bp.name, convParams bp.params⟩) nn T0.2.2.1) := by
     have hl1 := gW.len
     rw [a1] at hl1
     simp only [List.length_append, List.length_cons, List.length_nil] at hl1
     rw [hag.2 _ gR.len (by omega), gW.same (by rw [a1]; simp), a1]
     simp
-  have hpHs : Placed cx.rs r pH hs := hpH.left.left
-  have hitT : itemAt cx.rs ⟨r, pH + hs.length⟩ = some (.ljump ⟨n, bp.name, bp.params⟩ (some l)) :=
+  have hpHs : Placed cx.cp cx.rs r pH hs := hpH.left.left
+  have hitT : ItemC cx.cp cx.rs ⟨r, pH + hs.length⟩ (.ljump ⟨n, bp.name, bp.params⟩ (some l)) :=
     hpH.here' hs _ _ (by lst) rfl
-  have hpHr : Placed cx.rs r (pH + hs.length + 1) Hr :=
+  have hpHr : Placed cx.cp cx.rs r (pH + hs.length + 1) Hr :=
     hpH.mid' (hs ++ [LItem.ljump ⟨n, bp.name, bp.params⟩ (some l)]) Hr [] (by simp) (by len_omega)
-  have hpCr : Placed cx.rs r (pC + 1) Cr := hpC.right
+  have hpCr : Placed cx.cp cx.rs r (pC + 1) Cr := hpC.right
   have hendR : R2 cx m j ⟨r, pC + 1 + Cr.length⟩ k := by
     have e : pC + 1 + Cr.length = pC + ([LItem.label eB false] ++ Cr).length := by len_omega
     rw [e]; exact hend
   obtain ⟨tR, _, dR, xR⟩ := cR r (pH + hs.length + 1) (pC + 1) hpHr hpCr agR m j sC hl hc hex hin hendR
   have hstep := lab_test hitT (isTest_not_jump _ htest) htest
+  simp only [hsub k bp.name bp.params] at hstep
   refine ⟨fun hnt => ?_, fun hf => hf.elim, ?_, LabExport.comp gR.len xR
     (LabExport.same (fun i hi => ((Pushes.push _ _).trans gW).same hi))⟩
   · have hnt' : R2 cx m j ⟨r, pH + hs.length + 1 + Hr.length⟩ nt := by
